@@ -5,6 +5,7 @@ import (
 	"math/rand"
 	"reflect"
 	"sort"
+	"strings"
 
 	"go.sia.tech/core/consensus"
 	"go.sia.tech/core/types"
@@ -150,8 +151,12 @@ func (k *checker) mutateStatic(kinds []hashKind, lineName string, ptr any, r *ra
 					culprits = append(culprits, key)
 				}
 				if !all {
-					c.Violation(key, txt, map[string]any{"kind": hk.name, "semantic_line": lineName, "leaf": leaf.Path,
-						"value": fmt.Sprintf("%+v", reflect.ValueOf(ptr).Elem().Interface()), "mutant": fmt.Sprintf("%+v", reflect.ValueOf(m).Elem().Interface())})
+					pay := map[string]any{"kind": hk.name, "semantic_line": lineName, "leaf": leaf.Path,
+						"value": fmt.Sprintf("%+v", reflect.ValueOf(ptr).Elem().Interface()), "mutant": fmt.Sprintf("%+v", reflect.ValueOf(m).Elem().Interface())}
+					if t := wb.TypeByName(strings.TrimPrefix(lineName, "Sem_")); t != nil {
+						pay["type"], pay["bytes_hex"], pay["mutant_hex"] = t.Name, hexOf(t, ptr), hexOf(t, m)
+					}
+					c.Violation(key, txt, pay)
 				}
 			}
 		}
